@@ -74,11 +74,15 @@ def run(tier, seed, replay=None):
         rp = json.load(open(replay))
         reqs = [rp['request']] if 'request' in rp else []
     else:
-        kinds = ['flat', 'multi', 'nested', 'nested_big', 'unsized', 'tworoots', 'nestedx', 'payload', 'overlap', 'split', 'unsized2', 'ltbound', 'targs:reflexive_mix', 'targs:nested_arg', 'targs:generic', 'targs:concrete', 'arity', 'nested_relaxed_inner']
+        kinds = ['flat', 'multi', 'nested', 'nested_big', 'unsized', 'tworoots', 'nestedx', 'payload', 'overlap', 'split', 'unsized2', 'ltbound', 'targs:reflexive_mix', 'targs:nested_arg', 'targs:generic', 'targs:concrete', 'arity', 'nested_relaxed_inner', 'tie']
         seen = {}
         for i in range(n):
             k = kinds[i % len(kinds)]
-            cases.append(gen_nested_big(rng) if k == 'nested_big' else gp.gen_case(rng, k, idx=seen.get(k, 0)))
+            if k == 'tie':
+                from . import c07, c05
+                cases.append(c05.f16_case() if seen.get(k, 0) % 4 == 0 else c07.tie_case(rng))
+            else:
+                cases.append(gen_nested_big(rng) if k == 'nested_big' else gp.gen_case(rng, k, idx=seen.get(k, 0)))
             seen[k] = seen.get(k, 0) + 1
         reqs = ['groups\t' + c.invocation().replace('\n', ' ') for c in cases]
     resp = cm.run_hook(reqs, exe_hook)
